@@ -73,7 +73,10 @@ theorem step_minv (env : C12.Env) (m : C12.Machine) (ci : C12.Input)
   | precommit v => exact (C12.processPrecommit_chain (A := AnyMsg) env m v trivial trivial hi).2
   | timeout s h r =>
     simp only [C12.Machine.step, C12.Machine.processTimeout]
-    exact processLoop_minv env _ _ none (onTimeout_minv env m s h r hi)
+    -- since cd6cea9 C12's `processTimeout` returns at once when `onTimeout*` ignored the timeout
+    split
+    · exact onTimeout_minv env m s h r hi
+    · exact processLoop_minv env _ _ none (onTimeout_minv env m s h r hi)
   | sync p vs => exact absurd rfl (hci p vs)
   | wal e => exact absurd rfl (hw e)
 
@@ -263,8 +266,10 @@ theorem step_commit_height (env : C12.Env) (m : C12.Machine) (ci : C12.Input)
   | timeout s h r =>
     simp only [C12.Machine.step, C12.Machine.processTimeout]
     have ho := onTimeout_height env m s h r
-    exact processLoop_commit_height env m _ _ none ho.1 (onTimeout_minv env m s h r hi)
-      (C12.onTimeout_noCommit env m s h r)
+    split
+    · intro q hq; cases hq
+    · exact processLoop_commit_height env m _ _ none ho.1 (onTimeout_minv env m s h r hi)
+        (C12.onTimeout_noCommit env m s h r)
   | sync p vs => exact absurd rfl (hci p vs)
   | wal e => exact absurd rfl (hw e)
 
